@@ -279,6 +279,8 @@ def case_model(ctx, c):
     adt = str(g.choice(["int8", "int64", "float64"]))
     mcls = "additive" if kind == "A" else "additive+dominance"
     icls_in = mcls if kind == "A" else "%s/%s" % (mcls, "diploid" if ploidy == 2 else "ploidy 1 or 4")
+    if big is not None:
+        icls_in += "/more than 4096 taxa"
     ctx.case("model:%s/%s/%s" % (mcls, gcls, ucls), mat, u_a, u_d, beta, u_misc, repr(trait), repr(taxa), repr(taxa_grp), adt,
              trivial=(n < 2))
     if c % 101 == 0:
